@@ -190,6 +190,17 @@ impl Prop for C01 {
                 out.bump("cases_with_unconstrained_dist_bounds_(start>max,_NaN,_inf,_negative)");
             }
         }
+        // machines that are not well-formed, offered to validation: what it accepts must run
+        if !machines.is_empty() && r.chance(1, 6) {
+            let mi = r.below(machines.len() as u64) as usize;
+            match crate::gen::hostile_structure(&mut r, &machines[mi]) {
+                Some(m) => {
+                    machines[mi] = m;
+                    out.bump("malformed_machines_accepted_by_validation_and_run");
+                }
+                None => out.bump("malformed_machines_rejected_by_validation"),
+            }
+        }
         let pf = gen_frac(&mut r);
         let bf = gen_frac(&mut r);
         let prefix: Vec<u64> = if scripted {
